@@ -264,6 +264,8 @@ func TestC09(t *testing.T) {
 	alt.GovFocus = ""
 	alt.HostileDocs, alt.HostileDocsWide = true, true
 	alt.Consensus = 65
+	alt.MaxTxs = 14
+	alt.W["propose"], alt.W["vote"] = 12, 45
 	alt.W["raw"] = 4
 	alt.LiveInject = true
 	p.Alt, p.PAlt = alt, 25
@@ -401,17 +403,25 @@ func TestC09(t *testing.T) {
 				tx := &ctypes.Trx{Version: 1, Time: 1, Nonce: c.W.acct(a.Addr).Nonce, From: a.Addr, To: actorNamed("V0").Addr, Amount: u256(0),
 					Gas: c.W.Params.MinTrxGas, GasPrice: c.W.Params.gasPrice(), Type: ctypes.TRX_TRANSFER, Payload: &ctypes.TrxPayloadAssetTransfer{}}
 				signTrx(a, tx, c.W.ChainID)
-				fee := new(uint256.Int).Mul(u256(tx.Gas), tx.GasPrice)
-				if c.W.acct(a.Addr).Bal.Cmp(fee) >= 0 {
+				fee, overflow := new(uint256.Int).MulOverflow(u256(tx.Gas), tx.GasPrice)
+				// (gas rules voted in by the validators may leave no admissible transaction at all - a minimum gas above the
+				// maximum or above 2^63, a fee nobody can pay; that is a decision of the governance, not a node that stopped
+				// working: then the block with the transfer must still be processed and committed, whatever the tx result)
+				g, q := c.Hist.Genesis.Params, c.W.Params
+				gasRulesAsAtGenesis := q.MinTrxGas == g.MinTrxGas && q.MaxTrxGas == g.MaxTrxGas && q.MaxBlockGas == g.MaxBlockGas && q.gasPrice().Eq(g.gasPrice())
+				if !overflow && c.W.acct(a.Addr).Bal.Cmp(fee) >= 0 {
 					b := &Block{Txs: [][]byte{encodeTrx(tx)}}
 					br, perr := c.Sim.RunBlock(b, nil)
 					if perr != nil {
 						out.Err = violationf("node unusable after the history: %v", perr)
 						return out
 					}
-					if br.Txs[0].Code != 0 {
+					if br.Txs[0].Code != 0 && gasRulesAsAtGenesis {
 						out.Err = violationf("node unusable after the history: canned transfer rejected: %s", br.Txs[0].Log)
 						return out
+					}
+					if br.Txs[0].Code != 0 {
+						st.label("canned_transfer_rejected_under_voted_gas_rules", 1)
 					}
 				}
 			}
